@@ -13,10 +13,4 @@ float h_fstr(unsigned long* position) {
     std::string str;
     return fstr_body(str, (std::size_t*)position);
 }
-unsigned h_readRamUnsigned(unsigned long* charactersRead, unsigned long element_size) {
-    std::string element;
-    element.n = element_size;
-    CSVScaffold s;
-    return s.readRamUnsigned(element, *(std::size_t*)charactersRead);
-}
 }
